@@ -126,10 +126,12 @@ func getArrivalTimeOffset(base time.Time, arrival time.Time) uint16 {
 	if base.Before(arrival) {
 		return 0x1FFF
 	}
-	ato := uint16(base.Sub(arrival).Seconds() * 1024.0)
-	if ato > 0x1FFD {
+	// Compare before narrowing to 16 bits: offsets of 64 s and more would otherwise wrap around
+	// and be reported as small offsets instead of 0x1FFE.
+	ato := base.Sub(arrival).Seconds() * 1024.0
+	if ato >= 0x1FFE {
 		return 0x1FFE
 	}
 
-	return ato
+	return uint16(ato)
 }
